@@ -115,7 +115,7 @@ impl Prop for C01 {
                 let r = gen::render_tokens(&spec.terms, &toks, style, &mut c);
                 let expected = earley.accepts(&toks);
                 st.sub();
-                dynp::reset_steps(5_000_000);
+                dynp::reset_steps(LR_STEPS);
                 let real = match guarded(|| dynp::lr_parse(&r.text, RunOpts::default())) {
                     Ok(r) => r,
                     Err(p) => return panic_outcome(&format!("parse|table={}", tt.name()), &p),
